@@ -207,7 +207,7 @@ def run(ctx):
         # per-trader: draws and placements inside the trader loop, no inner loop
         loops = q.body.loop_heads()
         ctx.check(len(loops) == 1 and all(q.cfg.in_loop(c.b) for c in sites), "sites", tag + "|per-trader", ctx.loc(f), "placements sit in the single per-trader loop")
-        abstractions[tag] = [(c.name.replace("_market", ""), site_side(m, c)) for c in sorted(sites, key=lambda c: c.b)]
+        abstractions[tag] = [(c.name.replace("_market", ""), site_side(m, c)) for c in q.ordered(sites)]
     if len(abstractions) == 2:
         a, b = list(abstractions.values())
         ctx.check(a == b, "siblings", "single-vs-market", "-", "single- and multi-asset momentum agents place through the same sequence of sites %s" % a,
